@@ -25,6 +25,8 @@ fn main() {
         "bits-record" => xv::bitsrep::cmd_record(rest),
         "codec-replay" => xv::codec::cmd_replay(rest),
         "codec-record" => xv::codec::cmd_record(rest),
+        "cursor-replay" => xv::cursor::cmd_replay(rest),
+        "cursor-record" => xv::cursor::cmd_record(rest),
         other => {
             eprintln!("unknown subcommand {}", other);
             2
